@@ -11,3 +11,8 @@ import AGV.Props.C07
 #print axioms AGV.Props.C07.c07_nonfinite_not_roundtrip
 #print axioms AGV.Props.C07.c07_id_large_uint_rejected
 #print axioms AGV.Props.C07.c07_nonzero_unsigned_isvalid_rejects_domain
+#print axioms AGV.Props.C07.c07_schema_accept
+#print axioms AGV.Props.C07.c07_schema_reject
+#print axioms AGV.Props.C07.c07_schema_pinned_exact
+#print axioms AGV.Props.C07.c07_schema_first_registered_refuses_u64
+#print axioms AGV.Props.C07.c07_schema_first_registered_refuses_i32
